@@ -14,7 +14,7 @@ VARIABLES h, l     \* current history, position inside it
 tvars == <<arrays, toks, bbs, blks, hist, h, l>>
 
 Reset == /\ arrays' = << <<>> >>
-         /\ toks' = << [sl |-> Slice(1, 0), refs |-> <<>>, want |-> <<>>, owns |-> << <<>> >>, sealed |-> FALSE] >>
+         /\ toks' = << [sl |-> Slice(1, 0), refs |-> <<>>, want |-> <<>>, owns |-> << <<>> >>, sealed |-> FALSE, bl |-> Slice(1, 0)] >>
          /\ bbs' = <<>> /\ blks' = <<>> /\ hist' = <<>>
 
 TInit == Init /\ h = 1 /\ l = 1
